@@ -51,6 +51,13 @@ func (m *GroupsModifier) Apply(eng flows.Engine, env envs.Environment, sa flows.
 		return false
 	}
 
+	// archived contacts can't be in groups either, adding them only for the group re-evaluation to remove them again
+	// would report two changes for a contact that doesn't change
+	if contact.Status() == flows.ContactStatusArchived {
+		log(events.NewErrorf("can't add archived contacts to groups"))
+		return false
+	}
+
 	diff := make([]*flows.Group, 0, len(m.groups))
 
 	if m.modification == GroupsAdd {
